@@ -176,7 +176,7 @@ static int vf_fork_case(void (*fn)(void *), void *arg, const char *cls, const ch
     pid_t pid = fork();
     if (pid < 0) { vf_incon("fork failed: %s", strerror(errno)); if (efd >= 0) close(efd); return 1; }
     if (pid == 0) {
-        if (efd >= 0 && !vf_case) { dup2(efd, 2); }
+        if (efd >= 0) { dup2(efd, 2); }
         alarm(timeout_s > 0 ? timeout_s : 60);
         vf_nstats = 0; vf_dn = 0; if (vf_dset) memset(vf_dset, 0, vf_dcap * 8);
         fn(arg);
@@ -188,6 +188,7 @@ static int vf_fork_case(void (*fn)(void *), void *arg, const char *cls, const ch
     while (waitpid(pid, &st, 0) < 0 && errno == EINTR) ;
     vf_last_status = st;
     int rc = 0;
+    if (vf_case && efd >= 0) { char eb[4096]; ssize_t n; lseek(efd, 0, SEEK_SET); while ((n = read(efd, eb, sizeof eb)) > 0) (void) !write(2, eb, n); }
     if (!(WIFEXITED(st) && WEXITSTATUS(st) == 0)) {
         char *buf = calloc(1, 24000);
         if (efd >= 0) { off_t sz = lseek(efd, 0, SEEK_END); off_t start = 0; lseek(efd, start, SEEK_SET); ssize_t n = read(efd, buf, 23000); (void) sz; if (n < 0) n = 0; buf[n] = 0; }
